@@ -588,6 +588,7 @@ type session struct {
 	BPLines    []int    `json:"breakpoint_lines"`
 	BPFuncs    []string `json:"breakpoint_funcs"`
 	FuncsFirst bool     `json:"funcs_first,omitempty"` // order of the requests inside the one SetBreakpoints call
+	Split      bool     `json:"split_calls,omitempty"` // function and line breakpoints in two SetBreakpoints calls (order given by FuncsFirst)
 	Entry      bool     `json:"start_with_entry_step"`
 	Answers    []int    `json:"answers"` // per stop: 0 Continue, 1 StepInto, 2 StepOver, 3 StepOut (default 0 beyond the list)
 }
@@ -676,7 +677,24 @@ func debug(p program, s session) (o outcome) {
 			reqs = append(reqs, interp.FunctionBreakpoint(f))
 		}
 	}
-	if len(reqs) > 0 {
+	if s.Split && len(s.BPFuncs) > 0 && len(s.BPLines) > 0 {
+		// two requests, as a DAP client sends them (setFunctionBreakpoints / setBreakpoints): a request that names no
+		// function leaves the function breakpoints alone and vice versa
+		var fr, lr []interp.BreakpointRequest
+		for _, f := range s.BPFuncs {
+			fr = append(fr, interp.FunctionBreakpoint(f))
+		}
+		for _, l := range s.BPLines {
+			lr = append(lr, interp.LineBreakpoint(l))
+		}
+		if s.FuncsFirst {
+			dbg.SetBreakpoints(interp.ProgramBreakpointTarget(prog), fr...)
+			dbg.SetBreakpoints(interp.ProgramBreakpointTarget(prog), lr...)
+		} else {
+			dbg.SetBreakpoints(interp.ProgramBreakpointTarget(prog), lr...)
+			dbg.SetBreakpoints(interp.ProgramBreakpointTarget(prog), fr...)
+		}
+	} else if len(reqs) > 0 {
 		dbg.SetBreakpoints(interp.ProgramBreakpointTarget(prog), reqs...)
 	}
 	answer := func(g, a int) {
@@ -832,7 +850,11 @@ func explore(p program, ref outcome, base session, bound int) (fails []fail) {
 		par.Count("stops", int64(o.Stops))
 		par.Count("events", int64(len(o.Events)))
 		par.Distinct("traces", p.Name+fmt.Sprint(o.Events))
-		if w := check(p, s, ref, o); w != "" {
+		w := check(p, s, ref, o)
+		if w == "" && len(prefix) == 0 && len(s.BPLines) > 0 {
+			w = funcStopsKept(p, s, o)
+		}
+		if w != "" {
 			fails = append(fails, fail{S: s, What: w, Out: o.Out, Evs: o.Events})
 			return
 		}
@@ -850,6 +872,31 @@ func explore(p program, ref outcome, base session, bound int) (fails []fail) {
 	}
 	rec(nil, 0)
 	return
+}
+
+// funcRef: per program and function, the break events of the all-Continue session whose only breakpoint is that
+// function (filled before the exploration starts, read-only afterwards).
+var funcRef = map[string][]ev{}
+
+// funcStopsKept is the differential oracle for mixed breakpoint sets: with all-Continue answers, adding line breakpoints
+// (in the same or in another request) must not remove any stop the function breakpoint produces on its own — the same
+// line at the same point of the output.
+func funcStopsKept(p program, s session, o outcome) string {
+	for _, f := range s.BPFuncs {
+		for _, want := range funcRef[p.Name+"\x00"+f] {
+			found := false
+			for _, e := range o.Events {
+				if e.Reason == "break" && e.Line == want.Line && e.OutLen == want.OutLen {
+					found = true
+					break
+				}
+			}
+			if !found {
+				return fmt.Sprintf("function breakpoint on %s: the stop on line %d it produces on its own is missing once line breakpoints are added", f, want.Line)
+			}
+		}
+	}
+	return ""
 }
 
 type unit struct {
@@ -932,12 +979,31 @@ func main() {
 			}
 		}
 		units = append(units, unit{pi, session{Prog: p.Name, BPLines: p.Lines, BPFuncs: p.Funcs}}, unit{pi, session{Prog: p.Name, BPLines: p.Lines, BPFuncs: p.Funcs, FuncsFirst: true}})
+		// the same mixed sets sent as two requests (functions then lines, lines then functions)
+		for _, f := range p.Funcs {
+			for _, l := range p.Lines {
+				for _, ff := range []bool{false, true} {
+					units = append(units, unit{pi, session{Prog: p.Name, BPLines: []int{l}, BPFuncs: []string{f}, FuncsFirst: ff, Split: true}})
+				}
+			}
+		}
+		units = append(units, unit{pi, session{Prog: p.Name, BPLines: p.Lines, BPFuncs: p.Funcs, Split: true}}, unit{pi, session{Prog: p.Name, BPLines: p.Lines, BPFuncs: p.Funcs, FuncsFirst: true, Split: true}})
 	}
 	refs := make([]outcome, len(ps))
 	for i, p := range ps {
 		refs[i] = plain(p)
 		if strings.HasPrefix(refs[i].Err, "compile:") {
 			r.HarnessError("corpus program %s: %s", p.Name, refs[i].Err)
+		}
+	}
+	for _, p := range ps {
+		for _, f := range p.Funcs {
+			o := debug(p, session{Prog: p.Name, BPFuncs: []string{f}})
+			for _, e := range o.Events {
+				if e.Reason == "break" {
+					funcRef[p.Name+"\x00"+f] = append(funcRef[p.Name+"\x00"+f], e)
+				}
+			}
 		}
 	}
 	res := par.Map(len(units), func(i int) *[]fail {
@@ -974,7 +1040,7 @@ func main() {
 	r.Set("deviation_bound", bound)
 	r.Set("programs", len(ps))
 	r.Set("exhaustive", len(res.Abnormal) == 0)
-	r.Set("rule", "corpus of 20 sequential programs (branches, loops, calls, recursion, closures, defers, recovered and uncaught panics, switch/fallthrough, methods, dependent package-level variables + init, generic functions, package-qualified types in declarations), each in two forms: marker before / after the statement of its line with one Show(line) marker per breakable line; breakpoint sets: none, every marker line, each single line (thorough: each pair), each function, all functions, each function x each line in one request (both orders), all functions + every line; start with Continue or Step(DebugEntry); resume answers Continue/StepInto/StepOver/StepOut explored by deviation-bounded DFS (default Continue, <= bound deviations); states = distinct event traces")
+	r.Set("rule", "corpus of 20 sequential programs (branches, loops, calls, recursion, closures, defers, recovered and uncaught panics, switch/fallthrough, methods, dependent package-level variables + init, generic functions, package-qualified types in declarations), each in two forms: marker before / after the statement of its line with one Show(line) marker per breakable line; breakpoint sets: none, every marker line, each single line (thorough: each pair), each function, all functions, each function x each line in one request (both orders) and in two requests (both orders), all functions + every line (one and two requests); differential oracle for mixed sets: every stop a function breakpoint produces alone is still produced when line breakpoints are added; start with Continue or Step(DebugEntry); resume answers Continue/StepInto/StepOver/StepOut explored by deviation-bounded DFS (default Continue, <= bound deviations); states = distinct event traces")
 	r.Assumptions = []string{"sequential programs only (no goroutines under the debugger)", "lines without a marker (compound statement headers) only take part in the transparency comparison", "every-line breakpoint sets are explored with one deviation less than the bound"}
 	for _, i := range []int{0, len(units) / 2, len(units) - 1} {
 		r.Sample(units[i].Base)
